@@ -11,6 +11,27 @@ CHECKS = {
  "C05": ("Generated reduced CFGs (non-confusable terminals; recursion kinds, nullable chains, ambiguity, {m,n}) and parametric templates; all viable prefixes are enumerated breadth-first up to a node budget and every token's mask bit, the accepting flag, EOS and complete-string verdicts are compared with an independent fix-point Earley chart over bytes.",
          "trusts the reference chart recogniser and parameter evaluator (unit-tested on permutations, Dyck, bounded repetition)",
          "property-based testing: bounded-exhaustive differential against an independent reference recogniser"),
+ "C02": ("Generated grammars with a multi-byte vocabulary (synthetic or truncated cl100k) run against a twin of the same grammar over the 256-byte vocabulary fed the same bytes: every regular token's mask bit must equal byte-by-byte admissibility on the twin, accepting flags must agree, and a random re-tokenisation of the whole history must be accepted by a fresh engine and leave bit-identical observables.",
+         "relational oracle (the engine against itself under re-tokenisation); grammars with token references excluded",
+         "property-based testing: metamorphic relation (token split invariance) over generated grammars/vocabularies/walks"),
+ "C08": ("Mostly exhaustive grid of integer/number schemas (all integer pairs in a window with rotating inclusive/exclusive flags, half-open, structured decimal bounds, powers of ten +-1 up to 1e15, 13 multipleOf values x windows) plus random bounds; for every schema a structured literal set (integers around, bound +-10^-k, digit-count neighbours, each in canonical and zero-padded spellings) is decided by exact integer arithmetic and compared with validate_tokens(text+EOS); satisfiability decides whether compilation must succeed.",
+         "trusts the exact-arithmetic oracle (values scaled by 10^6 in i128); bounds that do not round-trip through f64 are skipped; 3.0 under integer schemas not asserted",
+         "grid enumeration + property-based testing against an exact arithmetic reference"),
+ "C09": ("Exhaustive grid over every 0<=m<=n<=N for 20 forms (rule / terminal / regex level repetition in all spellings, JSON items, lengths with 1/2/4-byte characters and escapes, properties) and every count 0..n+3: complete-string verdicts, prefix viability and boundary commits are compared with the arithmetic truth m<=k<=n; random larger bounds on top.",
+         "the expected verdict is plain arithmetic; sample strings are constructed per form",
+         "exhaustive grid enumeration (plus random larger bounds) against an arithmetic oracle"),
+ "C10": ("Two engines built from the same grammar and vocabulary, one with token slices (default JSON slices or 1-4 generated slice regexes) and one without, walk the same history in lock-step; mask words are compared bit for bit at every state; states with and without applied slices are both counted.",
+         "relational oracle (slices on/off); slice lists the factory rejects are skipped",
+         "property-based testing: differential (optimisation on vs off) over generated grammars/vocabularies/slice lists/walks"),
+ "C13": ("At every state of a mask walk with a canonical tokenizer (greedy synthetic or tiktoken BPE) the reported forced bytes are walked on a byte-level twin where each must be the only allowed token; ff tokens must decode to a prefix of the forced bytes, commit, and leave engine and twin in agreement; the same through Constraint with ff_tokens; process_prompt must conserve prompt text plus forced bytes.",
+         "relational oracle (byte-level twin of the same grammar); grammars with token references excluded",
+         "property-based testing: twin-engine differential for forcedness + round-trip identity for prompts"),
+ "C14": ("Trees of clone()/deep_clone() engines execute generated interleavings of commits, masks, validations, rollbacks and forced-byte queries; every result must equal that of a private engine (own factory) with the same net history. All 20 interleavings of two 3-act scripts are enumerated per case; additionally 2-16 clones run on real OS threads behind a barrier against precomputed private results. llg_par_compute_mask is compared with sequential masks in the C17 harness.",
+         "owned schedules at API-call granularity; OS-thread schedules are sampled, not controlled",
+         "stateful property-based testing with owned schedules (exhaustive for short runs) + real-thread stress against a private-engine model"),
+ "C19": ("Vocabularies with special tokens and plain look-alike tokens; sequence templates mixing literals, a class containing < | >, and token references (<name>, <[id]>, ranges, negated ranges, <[*]>) with position tracking by the generator: at reference positions the mask must equal exactly the denoted id set (validate and commit agreeing), at text positions no special/marker/empty token may be allowed or accepted; tokenisation of names in text vs marked names is checked per vocabulary.",
+         "reference sets are computed by the harness from the documented range semantics; EOS ids at text positions follow C01's accepting clause",
+         "property-based testing with generator-side position tracking (validity predicate per state)"),
  "C11": ("Generated histories of commits, rollbacks, resets and read-only queries on a live engine; at explicit check points every observable (mask words, accepting, forced bytes, stop status, validate results) is compared with a freshly built engine that replayed only the net tokens; mask twice / invalidate+mask are compared bitwise.",
          "the model is the engine itself on a fresh instance (relational oracle): it detects traces of earlier queries, not language errors",
          "stateful property-based testing (operation sequences + fresh-replay model)"),
